@@ -106,35 +106,84 @@ func plainText(n *html.Node, b *strings.Builder) {
 	}
 }
 
-// noMixedPara: no p below n has both a block-level element child and non-blank
-// text outside its block-level children.
-func noMixedPara(n *html.Node) bool {
-	if n.Type == html.ElementNode && n.Data == "p" {
-		hasBlock := false
-		for c := n.FirstChild; c != nil; c = c.NextSibling {
-			if c.Type == html.ElementNode && blockChild[c.Data] {
-				hasBlock = true
-			}
-		}
-		if hasBlock {
-			for c := n.FirstChild; c != nil; c = c.NextSibling {
-				if c.Type == html.ElementNode && blockChild[c.Data] {
-					continue
-				}
-				var b strings.Builder
-				plainText(c, &b)
-				if squeezeRaw(b.String()) != "" {
-					return false
-				}
-			}
+// noWrappedPara: wherever a paragraph that has a block-level element child is
+// read — through its div containers and through elements that merely wrap
+// content elements — no such wrapper (span, a, form, section, …: anything but a
+// div or a content element) has text in its phrasing children. Outside such a
+// paragraph nothing is asked. The walk follows the content model, not tabula.
+func noWrappedPara(n *html.Node) bool { return okPara(n, false) }
+
+func hasBlockChild(n *html.Node) bool {
+	for c := n.FirstChild; c != nil; c = c.NextSibling {
+		if c.Type == html.ElementNode && blockChild[c.Data] {
+			return true
 		}
 	}
+	return false
+}
+
+func blankText(n *html.Node) bool {
+	var b strings.Builder
+	plainText(n, &b)
+	return squeezeRaw(b.String()) == ""
+}
+
+func okPara(n *html.Node, inPara bool) bool {
+	all := func(in bool, onlyLists bool) bool {
+		for c := n.FirstChild; c != nil; c = c.NextSibling {
+			if onlyLists && !(c.Type == html.ElementNode && (c.Data == "ul" || c.Data == "ol")) {
+				continue
+			}
+			if !okPara(c, in) {
+				return false
+			}
+		}
+		return true
+	}
+	byRuns := func(in bool) bool {
+		for c := n.FirstChild; c != nil; c = c.NextSibling {
+			if !phrasing(c) && !okPara(c, in) {
+				return false
+			}
+		}
+		return true
+	}
+	switch n.Type {
+	case html.TextNode:
+		return true
+	case html.ElementNode:
+		if skipTags[n.Data] {
+			return true
+		}
+		switch n.Data {
+		case "p":
+			if !hasBlockChild(n) {
+				return true
+			}
+			return byRuns(true)
+		case "div":
+			if !hasBlockChild(n) && !blankText(n) {
+				return true
+			}
+			return byRuns(inPara)
+		case "ul", "ol":
+			return all(false, false)
+		case "li":
+			return all(false, true)
+		case "h1", "h2", "h3", "h4", "h5", "h6", "table", "pre", "code", "blockquote", "br", "hr":
+			return true
+		}
+	}
+	// a wrapper (or the document node)
+	if !inPara {
+		return all(false, false)
+	}
 	for c := n.FirstChild; c != nil; c = c.NextSibling {
-		if !noMixedPara(c) {
+		if phrasing(c) && !blankText(c) {
 			return false
 		}
 	}
-	return true
+	return byRuns(true)
 }
 
 // dumpBlocks writes the element list with list elements opened into their items
@@ -340,7 +389,7 @@ func apiOps(c *hx.Ctx, k *kase, data []byte) {
 			ops = append(ops, opPair{fmt.Sprintf("c19.src %d %s", m, tree), hx.HexS(squeezeRaw(sb.String()))})
 		}
 		// 5b. the text the property asks for (all text of every content element), on documents
-		// without a paragraph that mixes block-level children with text of its own
+		// without a paragraph that holds, beside block-level children, a wrapper with text
 		{
 			m := r.Range(-1, 4)
 			rd, err := htmldoc.OpenReader(bytes.NewReader(data))
@@ -352,8 +401,8 @@ func apiOps(c *hx.Ctx, k *kase, data []byte) {
 			if body == nil {
 				body = doc
 			}
-			out := "mixed"
-			if noMixedPara(body) {
+			out := "wrapped"
+			if noWrappedPara(body) {
 				_, atoms := dumpEls(rd.VerifElements(htmldoc.NavigationExclusionMode(m)))
 				var sb strings.Builder
 				for _, a := range atoms {
@@ -362,7 +411,7 @@ func apiOps(c *hx.Ctx, k *kase, data []byte) {
 				out = hx.HexS(squeezeRaw(sb.String()))
 				c.Count("want-checked")
 			} else {
-				c.Count("want-mixed-paragraph")
+				c.Count("want-wrapped-paragraph")
 			}
 			ops = append(ops, opPair{fmt.Sprintf("c19.want %d %s", m, tree), out})
 		}
